@@ -1615,6 +1615,9 @@ fn selftest() {
     assert_eq!(canon(&[st.clone(), st.clone()]), "foo bar baz=bonk | foo bar baz=bonk");
     assert_eq!(subscripted("lat_0").as_deref(), Some("lat₀"));
     assert_eq!(subscripted("x"), None);
+    for e in SER_ELEMS {
+        assert!(matches!(ref_real(e).0, Want::Valid(_)), "series default element '{e}' must be well-formed");
+    }
 }
 
 // ===================================================================================
@@ -2211,6 +2214,350 @@ fn check_beh(c: &LayoutCase, rec: &mut Rec, ex: Excl) -> CaseResult {
 }
 
 // ===================================================================================
+// histories over user defined gamuts: defaults belong to the gamut of the operator
+// ===================================================================================
+
+/// 'static strings for generated gamuts (OpParameter wants &'static str): interned, so the
+/// leak is bounded by the number of distinct keys/defaults the generator can produce.
+fn intern(s: &str) -> &'static str {
+    static POOL: std::sync::Mutex<BTreeMap<String, &'static str>> = std::sync::Mutex::new(BTreeMap::new());
+    let mut pool = POOL.lock().unwrap_or_else(|p| p.into_inner());
+    if let Some(v) = pool.get(s) {
+        return v;
+    }
+    let leaked: &'static str = Box::leak(s.to_string().into_boxed_str());
+    pool.insert(s.to_string(), leaked);
+    leaked
+}
+
+thread_local! {
+    /// name -> gamut of the user operators of the case in flight on this thread
+    static HIST_GAMUTS: std::cell::RefCell<BTreeMap<String, Vec<OpParameter>>> = const { std::cell::RefCell::new(BTreeMap::new()) };
+}
+
+fn hist_noop(_op: &Op, _ctx: &dyn Context, operands: &mut dyn CoordinateSet) -> usize {
+    operands.len()
+}
+
+/// One constructor for every generated operator: the gamut is looked up by operator name.
+fn hist_new(parameters: &RawParameters, ctx: &dyn Context) -> Result<Op, Error> {
+    let name = parameters.definition.split_into_parameters().get("_name").cloned().unwrap_or_default();
+    let Some(gamut) = HIST_GAMUTS.with(|g| g.borrow().get(&name).cloned()) else {
+        return Err(Error::NotFound(name, ": c16 history registry".to_string()));
+    };
+    Op::plain(parameters, InnerOp(hist_noop), Some(InnerOp(hist_noop)), &gamut, ctx)
+}
+
+#[derive(Clone, Debug, Serialize, Deserialize)]
+struct UParam {
+    key: String,
+    /// 0 flag, 1 natural, 2 integer, 3 real, 4 series, 5 text, 6 texts
+    kind: u8,
+    required: bool,
+    /// the default as text: number for natural/integer/real (real: shortest round-trip form),
+    /// the default text itself for series/text/texts ("" = no value); unused for flags
+    dflt: String,
+}
+
+#[derive(Clone, Debug, Serialize, Deserialize)]
+struct UOp {
+    name: String,
+    params: Vec<UParam>,
+}
+
+#[derive(Clone, Debug, Serialize, Deserialize)]
+struct HStep {
+    op: String,
+    args: Vec<(String, Option<String>)>,
+}
+
+#[derive(Clone, Debug, Serialize, Deserialize)]
+struct HistCase {
+    ops: Vec<UOp>,
+    /// definitions instantiated one after the other on one context; each has 1..3 steps
+    defs: Vec<Vec<HStep>>,
+}
+
+fn kind_of(k: u8) -> Kind {
+    [Kind::Flag, Kind::Nat, Kind::Int, Kind::Real, Kind::Series, Kind::Text, Kind::Texts][k as usize % 7]
+}
+
+/// (key, usual kind): a small pool, so that keys collide across gamuts and with built-in keys
+const HIST_KEYS: [(&str, u8); 12] =
+    [("order", 4), ("translation", 4), ("weights", 4), ("x", 3), ("lat_0", 3), ("k_0", 3), ("zone", 1), ("n", 2), ("from", 5), ("convention", 5), ("grids", 6), ("south", 0)];
+const SER_ELEMS: [&str; 16] = ["1", "2", "3", "-4.5", "0:30", "7", "1e3", "12W", "-0:30", "0.25", "55:30:36N", "9", "0", "2.5e-1", "100", "-1"];
+const HIST_WORDS: [&str; 8] = ["foo", "bar", "enuf", "mean", "GRS80", "blå", "position_vector", "m"];
+const HIST_BUILTINS: [&str; 4] = ["axisswap", "helmert", "utm", "tmerc"];
+
+fn hist_default(d: &mut Dice, kind: Kind) -> String {
+    match kind {
+        Kind::Flag => String::new(),
+        Kind::Nat => d.pick(1_000_000).to_string(),
+        Kind::Int => (d.pick(2_000_001) as i64 - 1_000_000).to_string(),
+        Kind::Real => format!("{:?}", (d.pick(2_000_001) as f64 - 1_000_000.0) / 1000.0),
+        Kind::Series => {
+            if d.chance(1, 8) {
+                return String::new();
+            }
+            let n = 1 + d.pick(3);
+            (0..n).map(|_| d.choose(&SER_ELEMS)).collect::<Vec<_>>().join(",")
+        }
+        Kind::Text => format!("{}-{}", d.choose(&HIST_WORDS), d.pick(1000)),
+        Kind::Texts => {
+            if d.chance(1, 8) {
+                return String::new();
+            }
+            let n = 1 + d.pick(3);
+            (0..n).map(|_| format!("{}{}", d.choose(&HIST_WORDS), d.pick(100))).collect::<Vec<_>>().join(", ")
+        }
+    }
+}
+
+fn free_dom(kind: Kind) -> Dom {
+    match kind {
+        Kind::Flag => Dom::Flag,
+        Kind::Nat => Dom::FreeNat,
+        Kind::Int => Dom::FreeInt,
+        Kind::Real => Dom::FreeReal,
+        Kind::Series => Dom::FreeSeries,
+        Kind::Text => Dom::FreeText,
+        Kind::Texts => Dom::FreeTexts,
+    }
+}
+
+fn hist_case(dice: &[u32]) -> HistCase {
+    let mut d = Dice::new(dice);
+    let n_ops = 2 + d.pick(3);
+    let mut ops = vec![];
+    for i in 0..n_ops {
+        let np = 2 + d.pick(4);
+        let mut pool: Vec<(&str, u8)> = HIST_KEYS.to_vec();
+        let mut params = vec![];
+        for _ in 0..np {
+            let (key, usual) = pool.remove(d.pick(pool.len()));
+            let kind = if d.chance(3, 10) { d.pick(7) as u8 } else { usual };
+            let required = kind != 0 && d.chance(1, 8);
+            let dflt = hist_default(&mut d, kind_of(kind));
+            params.push(UParam { key: key.to_string(), kind, required, dflt });
+        }
+        ops.push(UOp { name: format!("hop{i}"), params });
+    }
+    let n_defs = 2 + d.pick(5);
+    let mut defs = vec![];
+    for _ in 0..n_defs {
+        let ns = [1, 1, 2, 3][d.pick(4)];
+        let mut steps = vec![];
+        for _ in 0..ns {
+            let mut args: Vec<(String, Option<String>)> = vec![];
+            let name;
+            if d.chance(1, 4) {
+                let spec = op_spec(d.choose(&HIST_BUILTINS)).unwrap();
+                name = spec.name.to_string();
+                for k in spec.keys {
+                    if matches!(k.df, Df::Req) || d.chance(1, 4) {
+                        args.push((k.key.to_string(), gen_value(&mut d, k.dom).map(|a| a.join(","))));
+                    }
+                }
+            } else {
+                let op = &ops[d.pick(ops.len())];
+                name = op.name.clone();
+                for p in &op.params {
+                    if p.required || d.chance(1, 3) {
+                        args.push((p.key.clone(), gen_value(&mut d, free_dom(kind_of(p.kind))).map(|a| a.join(","))));
+                    }
+                }
+            }
+            if d.chance(1, 6) {
+                args.insert(0, ("inv".to_string(), None));
+            }
+            steps.push(HStep { op: name, args });
+        }
+        defs.push(steps);
+    }
+    HistCase { ops, defs }
+}
+
+/// Expectation for an omitted parameter of a generated gamut: that gamut's own default.
+fn hist_default_expect(p: &UParam) -> Expect {
+    match kind_of(p.kind) {
+        Kind::Flag => Expect::Flag(Want::Valid(false)),
+        Kind::Nat => Expect::Nat(Want::Valid(p.dflt.parse().unwrap_or(0))),
+        Kind::Int => Expect::Int(Want::Valid(p.dflt.parse().unwrap_or(0))),
+        Kind::Real => Expect::Real(Want::Valid((p.dflt.parse().unwrap_or(f64::NAN), 0.0))),
+        Kind::Series => {
+            if p.dflt.is_empty() {
+                Expect::SeriesAbsent
+            } else {
+                match ref_series(&p.dflt).0 {
+                    Want::Valid(v) => Expect::Series(Want::Valid(v)),
+                    _ => Expect::Series(Want::Odd(None)),
+                }
+            }
+        }
+        Kind::Text => Expect::Text(Want::Valid(p.dflt.clone())),
+        Kind::Texts => {
+            if p.dflt.is_empty() {
+                Expect::TextsAbsent
+            } else {
+                Expect::Texts(Want::Valid(p.dflt.split(',').map(|s| s.trim().to_string()).collect()))
+            }
+        }
+    }
+}
+
+fn user_gamut(op: &UOp) -> Vec<OpParameter> {
+    let mut g = vec![OpParameter::Flag { key: "inv" }];
+    for p in &op.params {
+        let key = intern(&p.key);
+        let opt = !p.required;
+        g.push(match kind_of(p.kind) {
+            Kind::Flag => OpParameter::Flag { key },
+            Kind::Nat => OpParameter::Natural { key, default: opt.then(|| p.dflt.parse().unwrap_or(0)) },
+            Kind::Int => OpParameter::Integer { key, default: opt.then(|| p.dflt.parse().unwrap_or(0)) },
+            Kind::Real => OpParameter::Real { key, default: opt.then(|| p.dflt.parse().unwrap_or(f64::NAN)) },
+            Kind::Series => OpParameter::Series { key, default: opt.then(|| intern(&p.dflt)) },
+            Kind::Text => OpParameter::Text { key, default: opt.then(|| intern(&p.dflt)) },
+            Kind::Texts => OpParameter::Texts { key, default: opt.then(|| intern(&p.dflt)) },
+        });
+    }
+    g
+}
+
+fn check_history(c: &HistCase, rec: &mut Rec) -> CaseResult {
+    struct Reset;
+    impl Drop for Reset {
+        fn drop(&mut self) {
+            HIST_GAMUTS.with(|g| g.borrow_mut().clear());
+        }
+    }
+    let _reset = Reset;
+    let mut ctx = Minimal::new();
+    HIST_GAMUTS.with(|g| {
+        let mut g = g.borrow_mut();
+        g.clear();
+        for op in &c.ops {
+            g.insert(op.name.clone(), user_gamut(op));
+        }
+    });
+    for op in &c.ops {
+        ctx.register_op(&op.name, OpConstructor(hist_new));
+    }
+    let describe = || {
+        c.ops
+            .iter()
+            .map(|o| {
+                let ps: Vec<String> =
+                    o.params.iter().map(|p| format!("{} {}{}", kind_name(kind_of(p.kind)), p.key, if p.required { " (required)".to_string() } else { format!(" default '{}'", p.dflt) })).collect();
+                format!("{}: [{}]", o.name, ps.join("; "))
+            })
+            .collect::<Vec<_>>()
+            .join("\n    ")
+    };
+    // (key, kind) -> defaults already relied upon earlier in this history
+    let mut relied: BTreeMap<(String, u8), Vec<String>> = BTreeMap::new();
+    let mut history: Vec<String> = vec![];
+    let mut collided = false;
+    for steps in &c.defs {
+        let text = steps
+            .iter()
+            .map(|s| {
+                let mut t = String::new();
+                for (k, v) in s.args.iter().filter(|a| a.0 == "inv") {
+                    let _ = v;
+                    t.push_str(k);
+                    t.push(' ');
+                }
+                t.push_str(&s.op);
+                for (k, v) in s.args.iter().filter(|a| a.0 != "inv") {
+                    t.push(' ');
+                    t.push_str(k);
+                    if let Some(v) = v {
+                        t.push('=');
+                        t.push_str(v);
+                    }
+                }
+                t
+            })
+            .collect::<Vec<_>>()
+            .join(" | ");
+        history.push(text.clone());
+        let op = match try_op(&mut ctx, &text) {
+            Err(p) => vfail!(format!("panic-params@{}", panic_kind(&p)), "instantiating '{text}' panics: {} at {}:{}\n  history: {history:?}", p.msg, p.file, p.line),
+            Ok(Err(e)) => vfail!("history-valid-rejected", "'{text}' (all values well-formed, required keys given) is rejected: {e:?}\n  history: {history:?}\n  gamuts:\n    {}", describe()),
+            Ok(Ok(op)) => op,
+        };
+        for (i, s) in steps.iter().enumerate() {
+            let p = match guard::guard(|| ctx.params(op, i)) {
+                Ok(Ok(p)) => p,
+                other => vfail!("params-unavailable", "ctx.params(op, {i}) of '{text}': {:?}", other.map(|r| r.map(|_| ()))),
+            };
+            let mut effective: BTreeMap<&str, &Option<String>> = BTreeMap::new();
+            for (k, v) in &s.args {
+                effective.insert(k.as_str(), v);
+            }
+            if let Some(uop) = c.ops.iter().find(|o| o.name == s.op) {
+                rec.class("step:user-operator");
+                for up in &uop.params {
+                    let kind = kind_of(up.kind);
+                    let ks = KeySpec { key: intern(&up.key), kind, df: Df::Absent, dom: Dom::Flag, check: true };
+                    let given = effective.get(up.key.as_str()).copied();
+                    let e = match given {
+                        Some(v) => expect_for(&ks, Some(v)).0,
+                        None => hist_default_expect(up),
+                    };
+                    if given.is_none() && !up.required && kind != Kind::Flag {
+                        let seen = relied.entry((up.key.clone(), up.kind)).or_default();
+                        if seen.iter().any(|d| *d != up.dflt) {
+                            collided = true;
+                        }
+                        if !seen.contains(&up.dflt) {
+                            seen.push(up.dflt.clone());
+                        }
+                        rec.class(&format!("omitted:{}", kind_name(kind)));
+                    }
+                    if let Some(msg) = compare_value(&p, &ks, &e, rec) {
+                        let key = if given.is_some() { format!("history-value:{}", kind_name(kind)) } else { format!("history-default:{}", kind_name(kind)) };
+                        vfail!(
+                            key,
+                            "step {i} of '{text}': {msg} ({})\n  history on this context: {history:?}\n  gamuts:\n    {}",
+                            if given.is_some() { "value given in the definition" } else { "parameter omitted: the default of this operator's own gamut applies" },
+                            describe()
+                        );
+                    }
+                }
+            } else {
+                rec.class(&format!("step:{}", s.op));
+                let spec = op_spec(&s.op).unwrap();
+                for k in spec.keys {
+                    let given = effective.get(k.key).copied();
+                    let (e, _) = expect_for(k, given);
+                    if !k.check {
+                        continue;
+                    }
+                    if let Some(msg) = compare_value(&p, k, &e, rec) {
+                        let key = if given.is_some() { format!("history-builtin-value:{}", kind_name(k.kind)) } else { format!("history-builtin-default:{}", kind_name(k.kind)) };
+                        vfail!(key, "step {i} of '{text}' (built-in {}): {msg}\n  history on this context: {history:?}\n  gamuts:\n    {}", s.op, describe());
+                    }
+                }
+                if s.op == "axisswap" && !effective.contains_key("order") && steps.len() == 1 {
+                    // the documented default order is the identity
+                    let mut data = [Coor4D([1., 2., 3., 4.])];
+                    match try_apply(&ctx, op, Fwd, &mut data) {
+                        Ok(Ok(1)) if data[0] == Coor4D([1., 2., 3., 4.]) => {}
+                        other => vfail!("history-builtin-default:behaviour", "'{text}' (order omitted) maps (1,2,3,4) to {} ({:?})\n  history: {history:?}\n  gamuts:\n    {}", fmt_c4(&data[0]), other.map(|r| r.ok()), describe()),
+                    }
+                }
+            }
+        }
+    }
+    if collided {
+        rec.class("same-key-different-defaults-both-omitted");
+        rec.nontrivial(&(history, describe()));
+    }
+    Ok(())
+}
+
+// ===================================================================================
 // main
 // ===================================================================================
 
@@ -2225,6 +2572,7 @@ fn main() {
     run.assume("omit_fwd/omit_inv and the stack operators (stack, push, pop) are generated only in definitions of two or more steps (documented as pipeline-only)");
     run.assume("typed values: a plain or exponent decimal must give the correctly rounded double (bit-exact, 0 = -0); a sexagesimal value must be within 3*2^-52 relative of the exact rational d+m/60+s/3600 times the product of the signs (the documented formula has five roundings); spellings the documentation is silent about (leading '+', '.5', 'inf', minutes >= 60, trailing comma, flag=<text>) may be accepted or rejected, but a rejection must name the parameter");
     run.assume("garbage for a real = a component the Rust standard parser cannot read as a number; the standard parser is trusted for that decision and for decimal conversions outside |mantissa| < 2^53, |exponent| <= 22");
+    run.assume("generated gamuts never use the keys inv, omit_fwd, omit_inv, ellps (modifiers / context global); an omitted parameter of a generated gamut must take that gamut's default whatever was instantiated before, in this or any other context of the process");
     run.assume("contexts: geodesy::Minimal with the harness operator 'c16typed' and two macros registered; the Plain context shares the same Op::new path and is not exercised here");
 
     let excl_note: Vec<&str> = RULES.iter().enumerate().filter(|(i, _)| ex.rules & (1 << i) != 0).map(|(_, r)| r.key).collect();
@@ -2279,6 +2627,16 @@ fn main() {
         n,
         move || prop::collection::vec(any::<u32>(), 0..200).prop_map(move |d| typed_case(&d, ex, true)),
         check_typed,
+    );
+
+    // 6. histories over generated user gamuts
+    let n = run.scale(25_000, 600_000);
+    run.section(
+        "gamut-histories",
+        "2..4 operators registered with register_op (constructor Op::plain) whose gamuts are generated: every OpParameter kind, keys from a pool of 12 (colliding across gamuts and with built-in keys such as order, translation, zone, from), generated defaults (distinct per gamut, drawn from large sets so that no other case can mask a leak); 2..6 definitions of 1..3 steps (user operators and axisswap/helmert/utm/tmerc) instantiated one after the other on one context with most parameters omitted; every parsed value of every step = the given value or the default of that operator's own gamut; axisswap without order is the identity; non-trivial = two gamuts share a key and kind with different defaults and both relied on the default",
+        n,
+        || prop::collection::vec(any::<u32>(), 0..240).prop_map(|d| hist_case(&d)),
+        check_history,
     );
 
     run.finish("definition ASTs rendered with independent layouts judged against a reference tokenizer model and the canonical rendering (steps, parsed parameters, bit-identical behaviour); typed parameter values judged against a reference parser written from the documentation (exact rational arithmetic for sexagesimal values)");
